@@ -59,6 +59,12 @@ CHECKS.update({
 })
 
 CHECKS.update({
+ "C03": dict(level="model_checking", ref="DESIGN.md 9 C03",
+  text="reduced: the real compiler pipeline (parser.Parse with the real lexer and goyacc parser, opt.Optimise, checker.Check, codegen.CodeGen: the body of Compiler.Compile) executed symbolically on eleven program templates (declarations of every kind, by/limit/buckets/hidden/as, arithmetic, comparisons and logic, patterns with captures, const patterns and concatenation, conditionals with else and otherwise, decorators with next, del-after, strptime and other builtins, stop) in which one byte at any position (thorough: also two adjacent bytes, on the first four templates) is replaced by an arbitrary byte: it never panics, returns code or errors, never both and never neither, and a second compilation of the same text gives the same outcome and the same opcode sequence",
+  note="only byte perturbations of the eleven templates, not arbitrary source texts; regexp/syntax.Parse, Regexp.Simplify/CapNames and regexp.Compile are the real functions applied to the pattern text with its symbolic byte concretised (a fork per value); unicode.IsLetter/IsDigit/IsSpace and UTF-8 decoding/encoding are engine models on symbolic runes; termination is bounded by the engine's per-path step budget"),
+ "C17": dict(level="model_checking", ref="DESIGN.md 9 C17",
+  text="named pipes, stream sockets and datagram sockets: bounded model checking of the real fifoStream.stream goroutine and LineReader over a model pipe (byte queue + open writing ends; reads return a solver-chosen chunk, end of file without a writer, an i/o timeout after SetReadDeadline, and wait otherwise): every history of 3 (thorough 4) writer-side steps {open, write 1..2 symbolic bytes, close, poll}; the lines delivered are the bytes written split at newlines, each once and in order, the tail once at the end; the stream ends after the writer closed (once something was read) or on cancellation, and not before; and of the real socketStream (listener, accept loop, one handler goroutine per connection) over a model of a listening unix stream socket with up to two connections: each connection's bytes arrive as its own lines in its own order, lines of different connections are never merged (the delivered sequence is an interleaving of the two expected sequences), tails once, and the stream ends on cancellation - also when nobody ever connected; and of the real dgramStream over a model datagram socket with one sender (datagrams of 0..2 symbolic bytes): the bytes in sending order split at newlines, the tail at cancellation",
+  note="standard input is NOT covered, nor are two datagram senders: for those parts of the property nothing is claimed; the socket model is a listener with a queue of pending connections and per-connection byte queues (reads: solver-chosen chunk / EOF after the peer closed / i/o timeout after SetReadDeadline / error after Close); one writer per pipe; natively a real fifo (mkfifo) and a real unix socket in a temporary directory"),
  "C19": dict(level="model_checking", ref="DESIGN.md 9 C19",
   text="bounded model checking of a one-shot run of the real runtime (runtime.New: program loading from the model directory, dispatcher, VM goroutines) and the real tailer in one-shot mode (glob, file streams, LineReader) wired as mtail.New wires them (one unbuffered channel, one WaitGroup; Run = wg.Wait): 1..2 log files whose 0..3 (thorough 4) bytes are symbolic, two programs; after the run each program has counted exactly the lines of the property's sentence, in total and per file, and no goroutine is left",
   note="the exporter, HTTP server and Prometheus registry of mtail.New are not started; one deterministic schedule; programs without patterns (so the order of lines within a file is not observed); file order across files is whatever the glob returns"),
@@ -98,8 +104,6 @@ CHECKS.update({
 })
 
 NOT_APPLICABLE = {
- "C03": "whole compiler front end on arbitrary bytes: channel-driven lexer, goyacc tables, HM unification over a pointer graph, regexp/syntax - symbolic bytes fork at every character class and reach stdlib parsers that cannot be encoded (DESIGN.md 4 C03)",
- "C17": "behaviour lives in kernel pipe/socket semantics and real goroutine interleavings; a faithful stub would re-implement net (DESIGN.md 4 C17)",
  "C23": "quantifies only over program structure; no value dimension for a solver - degenerates to enumeration (DESIGN.md 4 C23)",
  "C24": "quantifies only over program structure; no value dimension for a solver - degenerates to enumeration (DESIGN.md 4 C24)",
 }
